@@ -133,6 +133,15 @@ def knots : Rat → List Pt → List Rat → List (Rat × Pt)
   | acc, p :: _, [] => [(acc, p)]
   | _, [], _ => []
 
+/-- Edge lengths along a segment (as rationals). -/
+def segLens (len : Int → Int → Nat) : List Int → List Rat
+  | a :: b :: rest => ((len a b : Nat) : Rat) :: segLens len (b :: rest)
+  | _ => []
+
+/-- Knots of a segment `s` (node ids child → parent) for a position/radius lookup `pt` and edge lengths `len`. -/
+def segKnots (pt : Int → Pt) (len : Int → Int → Nat) (s : List Int) : List (Rat × Pt) :=
+  knots 0 (s.map pt) (segLens len s)
+
 /-- Point at arc length `s` on the polyline through the knots — `np.interp` semantics: take the *last*
 knot `j` with `d[j] ≤ s`; exactly on a knot (or past the end) return that knot's value, otherwise
 interpolate linearly towards knot `j + 1`. -/
